@@ -32,6 +32,10 @@ MIN_NONTRIVIAL = {'quick': 30, 'thorough': 300}
 def gen(rng, tier):
     n = 60 if tier == 'quick' else 2500
     out = [camx.gen_uamiv(rng) for _ in range(n)]
+    for c in out:
+        if len(c['species']) >= 2 and rng.random() < 0.4:
+            # the variables of the data set were created in another order than VAR-LIST names them
+            c['varorder'] = rng.sample(range(len(c['species'])), len(c['species']))
     for k_ in range(n // 2):
         c = S.gen(rng, longspan=[None, None, 24, None, 12][k_ % 5])
         c['family'] = 'slab'
@@ -55,6 +59,17 @@ def gen(rng, tier):
         c['family'] = 'bnd'
         c['kind'] = 'bnd'
         out.append(c)
+    # on every run: a boundary file whose last step ends at midnight, stamped hour 24 of the day that ends
+    c = S.gen_bnd(rng)
+    u = camx.gen_uamiv_at(rng, 2003, 365, 22, with_etflag=True, tstep=1)
+    while len(u['tflag']) < 2:
+        u = camx.gen_uamiv_at(rng, 2003, 365, 22, with_etflag=True, tstep=1)
+    camx.end_of_day(u)
+    nt = len(u['tflag'])
+    c.update(tflag=u['tflag'], etflag=u['etflag'], tstep=1, family='bnd', kind='bnd')
+    c['bdata'] = [[[[camx.rand_f32_bits(rng) for _ in range((c['ny'] if e < 2 else c['nx']) * c['nz'])] for e in range(4)]
+                   for _ in c['species']] for _ in range(nt)]
+    out.append(c)
     # wind files (three-word time header with stagger flag 0 or 1, and the older two-word header): reference file ->
     # Memmap reader -> writer -> the same bytes, read again; and data set -> writer -> reader
     for i in range(n // 6):
